@@ -66,6 +66,30 @@ def _audit(ev, args):
         EVENTS.append([str(args[0]), str(args[1])])
 
 
+# canary package: importable, not in the standard library, not imported yet.  Its __init__ and its
+# submodule log their own execution, so "a module named by the pickle was imported" is observable
+# even when no pickle.find_class event is raised (e.g. importlib.util.find_spec("pkg.sub") imports pkg)
+import builtins  # noqa: E402
+builtins._verif_canary_log = []
+CANARY_SRC = "import builtins\nbuiltins._verif_canary_log.append(__name__)\n\n\ndef go(*a):\n    return 0\n"
+
+
+def install_canary(scratch):
+    d = os.path.join(scratch, "canary-%d" % os.getpid())
+    os.makedirs(os.path.join(d, "verif_canary_pkg"), exist_ok=True)
+    for name in ("__init__.py", "sub.py"):
+        with open(os.path.join(d, "verif_canary_pkg", name), "w") as f:
+            f.write(CANARY_SRC)
+    sys.path.append(d)
+    return d
+
+
+def canary_reset():
+    del builtins._verif_canary_log[:]
+    for m in [m for m in sys.modules if m.startswith("verif_canary")]:
+        del sys.modules[m]
+
+
 sys.addaudithook(_audit)
 
 import fickling  # noqa: E402
@@ -284,6 +308,7 @@ def reset():
     pickle.load = rec_load
     pickle.loads = rec_loads
     verif_sink.reset()
+    canary_reset()
     del EVENTS[:]
     REC["loads"] = []
     REC["load"] = 0
@@ -349,6 +374,7 @@ def run_case(case, scratch):
         pickle.load = rec_load
         pickle.loads = rec_loads
     out["events"] = list(EVENTS)
+    out["imports"] = list(builtins._verif_canary_log)
     out["sink"] = len(verif_sink.LOG)
     out["loads"] = list(REC["loads"])
     out["load_calls"] = REC["load"]
@@ -368,6 +394,7 @@ def main():
     job = json.loads(sys.stdin.read())
     scratch = job["scratch"]
     os.makedirs(scratch, exist_ok=True)
+    canary_dir = install_canary(scratch)
     real_stdout = sys.stdout
     sys.stdout = io.StringIO()          # nothing a pickle prints may corrupt the protocol
     lines = []
@@ -382,6 +409,8 @@ def main():
         os.remove(os.path.join(scratch, "c02-%d.pkl" % os.getpid()))
     except OSError:
         pass
+    import shutil
+    shutil.rmtree(canary_dir, ignore_errors=True)
 
 
 if __name__ == "__main__":
